@@ -132,6 +132,41 @@ def corpus_cases(start):
         sel = [s.name for s in structs]
         res.append(Case(start + 2 + k, cs_, cs_.cmd_file("chain.go"), cs_.cmd_file("chain.go", sep=True), sel,
                         [cs_.cmd_types(sel), cs_.cmd_types(list(reversed(sel)))]))
+    # a field of a nested struct type (makeSubMap): the nested type Line is declared in another file than the holders, so
+    # `-file=model.go` does not list it while `-type=Order` ... must emit the same ToDest()/FromDest() calls for the holder
+    srcn = histgen.HFile("model.go", [
+        S("Order", [F("Id", "int"), F("Name", "string"), F("PartLine", "Line"), F("PtrLine", "Line", ptr=True)]),
+        S("Bill", [F("Id", "int"), F("PartLine", "Line", ptr=True)])])
+    srcx = histgen.HFile("extra.go", [S("Line", [F("Qty", "int"), F("Sku", "string")])])
+    destn = histgen.HFile("dest.go", [
+        S("Order", [F("Id", "int"), F("Name", "string"), F("PartLine", "Line"), F("PtrLine", "Line")]),
+        S("Bill", [F("Id", "int"), F("PartLine", "Line", ptr=True)]),
+        S("Line", [F("Qty", "int"), F("Sku", "string")])])
+    mn = histgen.Pkg("map", "src", [srcn, srcx], [], dest=[destn], destname="dest")
+    sel = ["Order", "Bill"]
+    res.append(Case(start + 4, mn, mn.cmd_file("model.go"), mn.cmd_file("model.go", sep=True), sel,
+                    [mn.cmd_types(sel), mn.cmd_types(list(reversed(sel)))]))
+    # one name reached twice at the same depth (Wire.q and Base.q from Beta; Conf.q and Wire.q from Delta): the class of
+    # the constructor findings K_ctor_ambiguous_promoted (the option function / parameter is printed twice, the file
+    # does not compile).  The random stream avoids the class; this case keeps the model's reading of it (every
+    # parameter with its own type, TypeMap = last writer) under comparison: found by seed 1 as a wrong import set
+    q1 = F("q", "time.Duration")
+    q1.goty = "tm.Duration"
+    q1.newskip = True
+    fm = histgen.HFile("model.go", [
+        S("Delta", [E("Conf"), F("Memo", "string"), E("Wire")]),
+        S("Wire", [q1], hasdoc=True),
+        S("Conf", [E("Wire"), F("level", "int"), F("q", "string")])], imports=[("tm", "time")])
+    ft = histgen.HFile("types.go", [
+        S("Beta", [E("Wire"), E("Base"), F("x1", "int64"), F("id", "uint8")]),
+        S("Base", [E("Wire"), F("code", "bool"), F("q", "string")])], imports=[("tm", "time")])
+    for k, flags in enumerate((["-opt"], ["-getset", "-opt"])):
+        am = histgen.Pkg("new", "p", [fm, ft], flags)
+        sel = ["Delta", "Wire", "Conf", "Beta", "Base"]
+        aio, sep = am.cmd_star(), am.cmd_star(sep=True)
+        for c in (aio, sep):
+            ft.gen.append("//go:generate go run github.com/lopolopen/shoot/cmd/shoot " + " ".join(c.argv()))
+        res.append(Case(start + 5 + k, am, aio, sep, sel, [am.cmd_types(sel), am.cmd_types(list(reversed(sel)))]))
     return res
 
 
